@@ -216,6 +216,34 @@ fn wide_strategy() -> BoxedStrategy<WideCase> {
         .boxed()
 }
 
+fn decode_chunks(u: &mut FuzzInput) -> Vec<Chunk> {
+    (0..u.n(4))
+        .map(|_| match u.n(9) {
+            0..=3 => Chunk::Ascii((0..=u.n(5)).map(|_| u.pick(&['a', 'B', '0', ' ', '_', '.', '-'])).collect()),
+            4 | 5 => Chunk::Narrow((0..=u.n(3)).map(|_| u.pick(&['\u{e9}', '\u{f1}', '\u{20ac}', '\u{2190}', '\u{1d400}'])).collect()),
+            6 | 7 => Chunk::Wide((0..=u.n(2)).map(|_| u.pick(&['\u{4e16}', '\u{754c}', '\u{1F600}', '\u{ff21}'])).collect()),
+            _ => Chunk::Sgr(u.n(7) as u8, (0..u.n(5)).map(|_| u.pick(&['a', 'z', '\u{e9}'])).collect()),
+        })
+        .collect()
+}
+
+fn decode_pad(u: &mut FuzzInput) -> PadCase {
+    let chunks = decode_chunks(u);
+    let cols = model::cols(&content_of(&chunks)) as i64;
+    let width = match u.n(9) {
+        0..=4 => (cols + u.n(6) as i64 - 3).max(0) as u32,
+        5..=7 => u.n(39) as u32,
+        8 => u.u16() as u32,
+        _ => [0u32, 1, 255, 256, 65535][u.n(4)],
+    };
+    PadCase { chunks, width, align: [None, Some(Align::Left), Some(Align::Center), Some(Align::Right)][u.n(3)], truncate: u.bool(), via: [Via::Msg, Via::Prefix, Via::Custom][u.n(2)] }
+}
+
+fn decode_wide(u: &mut FuzzInput) -> WideCase {
+    let lit = |u: &mut FuzzInput, max: usize| -> String { (0..u.n(max)).map(|_| u.pick(&['a', ':', '[', ']', ' ', '\u{e9}', '\u{4e16}'])).collect() };
+    WideCase { chunks: decode_chunks(u), term: 1 + u.n(99) as u16, left: lit(u, 6), right: lit(u, 4), align: [None, None, Some(Align::Left), Some(Align::Center), Some(Align::Right)][u.n(4)] }
+}
+
 pub fn property() -> Property {
     let w = default_workers();
     Property {
@@ -238,6 +266,7 @@ pub fn property() -> Property {
                 signature: no_signature,
                 essential: &["truncation_path", "truncation_non_ascii_or_sgr", "padding_path", "overflow_unshortened", "double_width", "sgr"],
                 workers: w,
+                decode: Some(decode_pad),
             }),
             Box::new(Gen::<WideCase> {
                 name: "wide_msg",
@@ -248,6 +277,7 @@ pub fn property() -> Property {
                 signature: no_signature,
                 essential: &["truncation_path", "truncation_non_ascii_or_sgr", "padding_path", "rest_does_not_fit", "wide_msg_last"],
                 workers: w,
+                decode: Some(decode_wide),
             }),
         ],
     }
